@@ -55,6 +55,25 @@ Fixpoint local_store (fs : list lfield) (lits : list (N * lit)) : option json :=
       end
   end.
 
+(* the JSON content the request WOULD produce if its explicit nulls were let through (what a peer would
+   be handed by an author whose instance did not refuse them): None if the request is refused for
+   another reason as well *)
+Definition forced_value (f : lfield) (l : option lit) : option (option jval) :=
+  match l with
+  | Some LNull => Some (Some JNull)
+  | _ => local_value f l
+  end.
+Fixpoint forced_store (fs : list lfield) (lits : list (N * lit)) : option json :=
+  match fs with
+  | [] => Some []
+  | f :: tl =>
+      match forced_value f (lget lits (f_short (lf f))), forced_store tl lits with
+      | Some (Some v), Some j => Some ((f_short (lf f), v) :: j)
+      | Some None, Some j => Some j
+      | _, _ => None
+      end
+  end.
+
 Definition jcode (v : option jval) : Z :=
   match v with
   | None => -1
